@@ -207,6 +207,31 @@ func (fr *Frame) run(st *State, params, freevars []Term) (*State, []Term) {
 			fr.vals[f] = vc.sc.Fresh(fr.prefix+"fv_"+f.Name(), vc.sortOf(f.Type()))
 		}
 	}
+	if fr.isRoot {
+		// nil policy: the parameters (and captured variables) of the function under analysis are
+		// entry values, also after they have been copied into a local cell (captured parameters)
+		trust := func(t Term, ty types.Type) {
+			sort := vc.sortOf(ty)
+			if sort != "Ref" && sort != "Val" {
+				return
+			}
+			key := vc.memKey(ty)
+			pred := "entryT_" + sanitize(key)
+			vc.sc.DeclFun(pred, []string{sort}, "Bool")
+			vc.sc.Axiom(sx(pred, t))
+		}
+		for i, p := range fn.Params {
+			if i < len(params) {
+				trust(params[i], p.Type())
+			}
+		}
+		for _, f := range fn.FreeVars {
+			if et, ok := typesPointerElem(f.Type()); ok {
+				_ = et
+			}
+			trust(fr.vals[f], f.Type())
+		}
+	}
 	ci := analyzeCFG(fn)
 	edges := map[*ssa.BasicBlock][]edgeIn{}
 	for _, b := range ci.order {
